@@ -1735,6 +1735,8 @@ class Score:
         If other is Integer, repeat the note other times
         """
         if isinstance(other, int):
+            if other <= 0:
+                return Score([], config=self.config.copy(), tags=set(self.tags))
             return sum([self.copy() for i in range(other)], None)
         else:
             raise Exception('Cannot multiply Score and ' + str(type(other)))
